@@ -23,6 +23,8 @@ def order(short=False):
 
 EXTRA = {
  "invokeExpr": ["//@ traced runInfo.expr -> runInfo.err; runInfo.rv"],
+ "funcExpr": ["// C04: a function value captures the scope it is DEFINED in (not a copy, not a child made once), the options and the node",
+              "//@ closure funcExpr$1 [C04] defscope: envFunc == runInfo.env && options == runInfo.options && funcExpr == as(runInfo.expr, \"*ast.FuncExpr\")"],
  "int64Value": ["//@ autoprops C01 C05", "//@ ensures [C05] val: rvKind(result) == reflect.Int64 && rvInt(result) == v && rvValid(result) && !rvIsNil(result)"],
  "float64Value": ["//@ ensures [C05] val: rvKind(result) == reflect.Float64 && same(rvFloat(result), v) && rvValid(result) && !rvIsNil(result)"],
  "isIntKind": ["//@ ensures [C05] def: result == isIntK(rvKind(v))"],
@@ -108,10 +110,11 @@ EXTRA = {
  "convertSliceOrArray": ['//@ requires [C01] okvin: rvValid(rv) && rt != nil', '//@ ensures [C01] okv: rvValid(result.0)'],
  "convertMap": ['//@ requires [C01] okvin: rvValid(rv) && rt != nil', '//@ ensures [C01] okv: rvValid(result.0)'],
  "convertVMFunctionToType": ['//@ requires [C01] okvin: rvValid(rv) && rt != nil', '//@ ensures [C01] okv: rvValid(result.0)'],
+ "isHashable": ['//@ ensures [C01 C10] def: result == hashableKey(v)'],
  "getMapIndex": ['//@ requires [C01] okvin: rvValid(key) && rvKind(aMap) == reflect.Map', '//@ ensures [C01] okv: rvValid(result)'],
  "appendSlice": ['//@ ensures [C01] okv: rvValid(result.0)'],
  "makeValue": ['//@ requires [C01] t != nil', '//@ ensures [C01] okv: rvValid(result.0)'],
- "equal": ['//@ ensures [C06] nil: (nilV(lhsV) || nilV(rhsV)) ==> result == (nilV(lhsV) && nilV(rhsV))',
+ "equal": ['//@ free_ensures rel: result == equalR(lhsV, rhsV)', '//@ ensures [C06] nil: (nilV(lhsV) || nilV(rhsV)) ==> result == (nilV(lhsV) && nilV(rhsV))',
            '//@ ensures [C06] core: !nilV(lhsV) && !nilV(rhsV) && corePair(eqD(lhsV), eqD(rhsV)) ==> result == eqV(lhsV, rhsV)'],
  "isNil": ['//@ ensures [C06] def: result == nilV(v)'],
  "tryToBool": ['// truthyV is DEFINED as the first result of tryToBool (a function of the value); the truthiness table is below',
